@@ -1,3 +1,4 @@
+import GramModel.Lemmas.ParserStepsTie
 import GramModel.Parser
 import GramModel.Generated.Grammar
 import GramModel.Lemmas.Parser
@@ -491,3 +492,27 @@ theorem C07_accepted_is_sentence : C07_accepted_is_sentence_stmt := by
     from hr)).2 hce).derives.2
   rw [hn, terminalsBetween_all] at hd
   exact hd
+
+/-! ## The parser model's bodies are the steps `parser.rs` contains (regenerated on every run) -/
+
+/-- For the 8 choice functions (`parse_term`, `parse_atom`, `parse_small_term` … `parse_jumbo_term`), the 9 binary-operator
+functions and the 5 keyword leaves — 22 of the 36 packrat functions — the body the model runs for that nonterminal IS the
+interpretation of the row read off `parser.rs` by `extract/arms.py`: the alternatives in their order (`try_return!`), resp.
+`try_eval!(left operand)`, `consume_token_0!(operator)`, right operand, node; resp. token and leaf.  A reordered or added
+alternative, an operand parsed at another precedence level, another operator token or another node built changes the row and
+this theorem stops checking. -/
+def C07_parser_steps_regular_stmt : Prop :=
+  ∀ (toks : Array PModel.PTok) (rec : PModel.NT → Nat → PModel.ParseM PModel.PResult) (start : Nat),
+    ∀ fn ∈ PModel.regularFns, ∃ nt, PModel.ntOfFn fn = some nt ∧
+      PModel.interpRow toks rec (PModel.stepsOf fn) start = some (PModel.parseBody toks rec nt start)
+theorem C07_parser_steps_regular : C07_parser_steps_regular_stmt := PModel.regular_bodies
+
+/-- The rows of the other 14 functions (binders, application, arrow, negation, variable, literal, and the three functions
+with recovery scans) are the rows the model was written from, and the 36 rows are the 36 functions, each once. -/
+def C07_parser_steps_irregular_stmt : Prop :=
+  (∀ r ∈ PModel.irregularRows, PModel.stepsOf r.1 = r.2) ∧
+  Generated.parserSteps.length = 36 ∧
+  (∀ r ∈ Generated.parserSteps, (PModel.ntOfFn r.1).isSome) ∧
+  (Generated.parserSteps.map (fun r => (PModel.ntOfFn r.1).map PModel.NT.idx)) = (List.range 36).map some
+theorem C07_parser_steps_irregular : C07_parser_steps_irregular_stmt := by
+  unfold C07_parser_steps_irregular_stmt; decide
